@@ -21,6 +21,9 @@ var verifStage1ErrInjected = false
 
 var verifIndexLimit = indexSizeWithSafetyBuffer
 
+// the message ends inside a string: the kernel contract stub leaves the inside-quote carry set after the last block
+var verifEndInQuote = false
+
 var verifWidthsU1 = []int{1, 5, 61}
 
 // gaps for the hand-over scenario: more than 64 bytes must remain after the block that fills the index buffer
